@@ -7,7 +7,7 @@
                   and the model's loader agrees with the real loader on every observed state;
      check_spec : clauses (a) (b) (c) of the property on the observations alone.                                   *)
 From Coq Require Import List NArith Bool.
-Require Import QV.common.Util QV.C11.Model.
+Require Import QV.common.Util QV.C11.Model QV.C11.Spec.
 Import ListNotations.
 Open Scope N_scope.
 
@@ -159,4 +159,46 @@ Definition check_spec (c : case) : bool :=
             | OutOk => true
             end)
       else true
+  end.
+
+(* ---- which known finding explains a case the specification rejects (used by `classify`, exact) ----
+   A finding is "the behaviour of the unchanged code, as the model predicts it, on inputs outside a guard".  So a
+   rejected case belongs to a finding iff (1) the implementation behaved exactly as the model predicts (check_corr)
+   and (2) some operation of the case (history, final operation, follow-up operation in any of the states it can
+   start from) is outside that guard in the model.  With (1) and all guards true the theorems C11_crash_safe /
+   C11_history_safe exclude a rejection.   0 = none, 1 = dup-id-in-transaction, 2 = overwrite-creates-cycle       *)
+Definition dup_guard_op (o : op) : bool :=
+  match o with OStore n | OOverwrite n => consistentb n | _ => true end.
+
+Fixpoint hist_guards (b : backend) (d : disk) (c : cache) (l : list op) : bool * bool :=
+  match l with
+  | [] => (true, true)
+  | o :: r =>
+      let '(g1, g2) := match plan_of current b d c o with
+                       | PErr _ => hist_guards b d c r
+                       | PNoop c' => hist_guards b d c' r
+                       | PSteps s c' => hist_guards b (run s d) c' r
+                       end in
+      (dup_guard_op o && g1, guard_C11_cycle d c o && g2)
+  end.
+
+Definition finding_of (c : case) : N :=
+  match c with
+  | CCrash => 0
+  | CStore b hist fin before nofault after crashes post after_post kills =>
+      if negb (check_corr c) then 0 else
+      let '(d0, c0) := run_ops current b empty_disk [] hist in
+      let pl := plan_of current b d0 c0 fin in
+      let states := prefix_states (steps_of pl) d0 in
+      let c1 := match pl with PSteps _ c' | PNoop c' => c' | PErr _ => c0 end in
+      let '(h1, h2) := hist_guards b empty_disk [] hist in
+      let post_dup := match post with Some po => negb (dup_guard_op po) | None => false end in
+      let post_cyc := match post with
+                      | Some po => existsb (fun dk => negb (guard_C11_cycle dk c0 po) || negb (guard_C11_cycle dk [] po)) states
+                                   || negb (guard_C11_cycle (run (steps_of pl) d0) c1 po)
+                      | None => false
+                      end in
+      if negb h1 || negb (dup_guard_op fin) || post_dup then 1
+      else if negb h2 || negb (guard_C11_cycle d0 c0 fin) || post_cyc then 2
+      else 0
   end.
